@@ -12,6 +12,13 @@ from . import xl, xlerrors, xlcriteria, func_xltypes
 rand = np.random.rand
 
 
+def _finite(value):
+    """Overflow or an argument outside the domain is the #NUM! error."""
+    if not math.isfinite(value):
+        raise xlerrors.NumExcelError(f'{value} is not a finite number')
+    return value
+
+
 @xl.register()
 @xl.validate_args
 def ABS(
@@ -35,7 +42,7 @@ def ACOS(
     https://support.office.com/en-us/article/
         acos-function-cb73173f-d089-4582-afa1-76e5524b5d5b
     """
-    return np.arccos(float(number))
+    return _finite(np.arccos(float(number)))
 
 
 @xl.register()
@@ -193,7 +200,7 @@ def COSH(
     https://support.office.com/en-us/article/
         cosh-function-e460d426-c471-43e8-9540-a57ff3b70555
     """
-    return np.cosh(float(number))
+    return _finite(np.cosh(float(number)))
 
 
 @xl.register()
@@ -206,7 +213,7 @@ def DEGREES(
     https://support.office.com/en-us/article/
         degrees-function-4d6ec4db-e694-4b94-ace0-1cc3f61f9ba1
     """
-    return np.degrees(float(angle))
+    return _finite(np.degrees(float(angle)))
 
 
 @xl.register()
@@ -239,7 +246,7 @@ def EXP(
     https://support.office.com/en-us/article/
         exp-function-c578f034-2c45-4c37-bc8c-329660a63abe
     """
-    return np.exp(float(number))
+    return _finite(np.exp(float(number)))
 
 
 @xl.register()
